@@ -219,7 +219,7 @@ def addReference (cid uid : Nat) (rid : String) : M (Except String Nat) := do
 def removeReference (cid uid : Nat) (rid : String) : M Unit := do
   let s ← getSub cid uid
   match s.refs.find? (·.1 == rid) with
-  | none => doPanic "removeReference: nil reference"
+  | none => pure ()      -- a reference the subscription does not hold: ignored
   | some (_, child, n) =>
     if n == 1 then
       connUnsubscribe cid child false s.isSent 1 true
@@ -433,6 +433,8 @@ partial def runRCont (cid : Nat) (k : RCont) : M Unit := do
 /-- `processEvent`. -/
 partial def processEvent (cid uid : Nat) (ev : REv) : M Unit := do
   let s ← getSub cid uid
+  -- queued events of a subscription disposed by an earlier event of the batch are discarded
+  if s.res.isNone then return
   if s.version != ev.version then return
   if ev.update then setSub cid { s with version := s.version + 1 }
   let c ← getConn cid
